@@ -47,6 +47,11 @@ class _h1:
     bound_note = "h1: data length n<=3, bin count m<=3, contents symbolic"
     configs = staticmethod(_h1_cfgs)
 
+    def thorough_extra():        # larger extents in the thorough tier
+        return [{"n": 4, "m": 3, "bins": "gapped", "weights": "float64", "keep_missed": True},
+                {"n": 3, "m": 4, "bins": "fixed", "weights": None, "keep_missed": True},
+                {"n": 4, "m": 4, "bins": "gapped", "weights": "int64", "keep_missed": True}]
+
     def inputs(b):
         binning = make_binning(b, "B", b.cfg.bins, b.cfg.m)
         layout = getattr(b.cfg, "layout", None)
